@@ -263,7 +263,7 @@ def obligations(tier, seed):
         for fac in (0, 1):
             if op == "update":
                 for form in range(5):
-                    for kfix in range(4):
+                    for kfix in (range(4) if (form < 3 or tier != "quick") else (1, 3)):
                         variants.append((f"{op}{form}.k{kfix}.fac{fac}", extra, pre2, f"FORM = {form}\nKFIX = {kfix}\n", body, fac))
             else:
                 variants.append((f"{op}.fac{fac}", extra, pre2, "", body, fac))
